@@ -798,3 +798,53 @@ Proof.
   - constructor. intros t b' Hb'. apply IH; auto.
     intros a Ha. eapply fits_mono; [apply Hc; exact Ha | lia].
 Qed.
+
+(* ------------------------------------------------------------------ programs that never set the Ready bit *)
+
+Inductive nrdy {A} : prog A -> Prop :=
+| ny_ret a : nrdy (Ret a)
+| ny_fail : nrdy Fail
+| ny_stuck : nrdy Stuck
+| ny_fuel : nrdy OutOfFuel
+| ny_rd k : (forall t, nrdy (k t)) -> nrdy (Rd k)
+| ny_wr s k : nrdy k -> nrdy (Wr s k)
+| ny_wru s k : nrdy k -> nrdy (WrU s k)
+| ny_ctx ke k : nrdy ke -> nrdy k -> nrdy (Ctx ke k)
+| ny_call ko ke : (forall v, nrdy (ko v)) -> (forall v, nrdy (ke v)) -> nrdy (Call ko ke)
+| ny_get k : (forall b, nrdy (k b)) -> nrdy (GetBits k)
+| ny_or m k : N.land m st_Ready = 0%N -> nrdy k -> nrdy (OrBits m k)
+| ny_restart rs k : nrdy k -> nrdy (Restart rs k)
+| ny_log e k : nrdy k -> nrdy (Log e k).
+
+Lemma nrdy_bits A (p : prog A) pl : nrdy p -> forall w,
+  is_ready (w_bits w) = false -> is_ready (w_bits (snd (interp pl p w))) = false.
+Proof.
+  induction 1 as [a| | | |k _ IH|s k _ IH|s k _ IH|ke k _ IHe _ IH|ko ke _ IHo _ IHe|k _ IH|m k Hm _ IH|rs k _ IH|e k _ IH];
+    intros w Hw; cbn [interp]; try exact Hw.
+  - pose proof (read_tok_from_bits pl (w_script w) w) as Hb. unfold read_tok.
+    destruct (read_tok_from pl w (w_script w)) as [[t|] w1]; cbn [snd] in Hb |- *; [apply IH|]; rewrite Hb; exact Hw.
+  - unfold do_write. destruct (op_ok pl w true); cbn [snd]; [apply IH|]; exact Hw.
+  - unfold do_write. apply IH. exact Hw.
+  - destruct (ctx_done pl w); cbn [snd]; [unfold set_trace; cbn [w_bits]; apply IHe; exact Hw | apply IH; exact Hw].
+  - destruct (w_calls w) as [|v vs]; [exact Hw|].
+    destruct (sval_err v); cbn [snd]; [apply IHe | apply IHo]; exact Hw.
+  - apply IH. exact Hw.
+  - apply IH. cbn [w_bits]. unfold is_ready, has in *. rewrite N.land_lor_distr_l, Hm, N.lor_0_r. exact Hw.
+  - apply IH. destruct rs; exact Hw.
+  - apply IH. exact Hw.
+Qed.
+
+Lemma nrdy_bind A B (p : prog A) : nrdy p -> forall (f : A -> prog B), (forall a, nrdy (f a)) -> nrdy (bind p f).
+Proof.
+  induction 1 as [a| | | |k _ IH|s k _ IH|s k _ IH|ke k _ IHe _ IH|ko ke _ IHo _ IHe|k _ IH|m k Hm _ IH|rs k _ IH|e k _ IH];
+    intros f Hf; cbn [bind]; try (constructor; auto; fail).
+  - apply Hf.
+  - constructor; [apply IHe; intro; constructor | apply IH; exact Hf].
+  - constructor; intro v; [apply IHo; exact Hf | apply IHe; intro; constructor].
+Qed.
+
+Lemma nrdy_feed A (p : prog A) : nrdy p -> forall ts, nrdy (feed ts p).
+Proof. induction 1; intros [|t ts]; cbn; try (constructor; auto; fail); auto. Qed.
+
+Lemma no_orbits_nrdy A (p : prog A) : no_orbits p -> nrdy p.
+Proof. induction 1; constructor; auto. Qed.
